@@ -754,6 +754,11 @@ class Interp:
     def iterate(self, v, node=None):
         if hasattr(v, 'iterate'):
             return v.iterate(self, node)
+        from .symseq import LazyDict
+        if isinstance(v, LazyDict) and getattr(v, 'sym', None) is not None:
+            # its python part holds only the keys written concretely on this path: iterating that would silently skip the
+            # symbolic content (found by benign/C18-b3: `any(k not in known for k in rsv_dict)` evaluated to False)
+            raise Unsupported('iteration over a dictionary with symbolic content outside a loop with a specification')
         if isinstance(v, (list, tuple, set, frozenset, dict, str, range)):
             return list(v)
         if isinstance(v, (types.GeneratorType, enumerate, zip, map, filter)) or type(v).__name__ in ('dict_items', 'dict_keys', 'dict_values', 'list_iterator', 'dict_itemiterator'):
